@@ -1,5 +1,5 @@
 // C17: conv1d, call forms with defaulted (None) parameters
-//   nn_conv1d_form <form> <dtype f|d> <input> <weight> <hasbias> [<bias>] <stride> <padding> <dilation> <groups>
+//   nn_conv1d_form <form> <dtype f> <input> <weight> <hasbias> [<bias>] <stride> <padding> <dilation> <groups>
 //   form: 0 = (input, weight[, bias])          1 = stride only      2 = padding only
 //         3 = dilation only                    4 = groups only (stride/padding/dilation None)
 #include "c16_common.hpp"
@@ -10,7 +10,7 @@ namespace view = nmtools::view;
 VH_OP(nn_conv1d_form)
 {
     auto form = in.i();
-    vh::with_fdtype(in, out, [&](auto t) {
+    vh::with_f(in, out, [&](auto t) {
         using T = decltype(t);
         auto xo = vh::read_operand(in);
         auto wo = vh::read_operand(in);
